@@ -70,6 +70,11 @@ def literal_or_sep(fn, t):
         return False
     if t[0] in ("str", "char"):
         return True
+    if t[0] == "?:":
+        # a choice between two separators
+        return literal_or_sep(fn, t[2]) and literal_or_sep(fn, t[3])
+    if t[0] == "cast":
+        return literal_or_sep(fn, t[2])
     if t[0] == "var":
         for b, e in fn.events():
             if e["e"] == "decl" and e["var"] == t[1]:
